@@ -68,6 +68,33 @@ var plans = map[string]plan{
 		Stubs:  []string{"provider sources (in-process, gated)", "wall clock (testing/synctest)"},
 		Assume: append([]string{"'without waiting' is decided as 'completes without any other goroutine being scheduled', not as a wall-clock bound", "data-race freedom is decided only by the thorough tier's -race windows, which are seeded but not exactly repeatable"}, commonAssume...),
 	},
+	"C08": {
+		Property: "C08", Level: "exploration",
+		Quick:    []phase{{Scen: "C08", Seeds: 4000, Batch: 125}},
+		Thorough: []phase{{Scen: "C08", Seeds: 300000, Batch: 500}},
+		Rule: "seeded: 1..3 publishers that keep extending their chains and announcing each new head (bursts of 1..6 direct announcements), explicit SyncAdChain calls for the same publishers in half of the runs, MaxAsyncConcurrency in {unlimited,1,2,#publishers}, IdleHandlerTTL 1h or 20..60s with responses delayed up to 9s, segmented or not; the scheduler interleaves callers, 11 guarded yield points inside the subscriber (a random two thirds of them active per run; lock-wait points always), pending HTTP requests, block-hook calls and clock jumps (only while everybody waits for something external). Invariants after every step: at most one block request pending or hook call in progress per publisher; announce-triggered syncs in progress <= limit. When activity has ceased: latest-sync = last delivered announcement or an error notification for it; every advertisement reported exactly once; hook calls of different syncs do not interleave and are newest-to-oldest. Non-trivial when two actions were simultaneously enabled; distinct = distinct (schedule hash, fault set, canonical log hash)",
+		Real:   []string{"dagsync.Subscriber (watch loop, per-publisher handlers, event distributor, idle-handler cleaner, Close)", "announce.Receiver (direct announcements)", "ipnisync.Sync/Syncer", "ipnisync.Publisher", "chanqueue", "go-ipld-prime traversal", "net/http client transport", "libp2p-HTTP discovery client"},
+		Stubs:  []string{"TCP/TLS (net.Pipe)", "HTTP server loop", "block stores (in-memory)", "wall clock (testing/synctest)", "gossip pubsub (absent: announcements are direct)", "libp2p stream transport (absent)"},
+		Assume: append([]string{"announced heads advance monotonically per publisher (re-ordered old heads are outside the statement)", "time passes only while every goroutine waits for something external (network, caller think time, block-hook user code, a held lock): computation takes no simulated time"}, commonAssume...),
+	},
+	"C14": {
+		Property: "C14", Level: "exploration",
+		Quick:    []phase{{Scen: "C14", Seeds: 4000, Batch: 125}},
+		Thorough: []phase{{Scen: "C14", Seeds: 300000, Batch: 500}},
+		Rule: "seeded: the C08 world plus 1..4 listener tasks that register, read promptly, read late, never read, or cancel at scheduler-chosen moments; the scheduler releases every notification send, registration and cancellation one at a time, so their completion order is known. The first-registered listener must receive exactly the notifications whose send points were passed, in order, with the CID and block count of the sync that sent each; every other listener exactly the run between its registration and its cancellation; cancelled listeners' channels close after what was queued. Non-trivial when two actions were simultaneously enabled; distinct = distinct (schedule hash, canonical log hash)",
+		Real:   []string{"dagsync.Subscriber (watch loop, per-publisher handlers, event distributor, idle-handler cleaner, Close)", "announce.Receiver (direct announcements)", "ipnisync.Sync/Syncer", "ipnisync.Publisher", "chanqueue", "go-ipld-prime traversal", "net/http client transport", "libp2p-HTTP discovery client"},
+		Stubs:  []string{"TCP/TLS (net.Pipe)", "HTTP server loop", "block stores (in-memory)", "wall clock (testing/synctest)", "gossip pubsub (absent: announcements are direct)", "libp2p stream transport (absent)"},
+		Assume: commonAssume,
+	},
+	"C15": {
+		Property: "C15", Level: "exploration",
+		Quick:    []phase{{Scen: "C15", Seeds: 4000, Batch: 125}},
+		Thorough: []phase{{Scen: "C15", Seeds: 300000, Batch: 500}},
+		Rule: "seeded: the C14 world plus 1..3 concurrent Close callers released at an arbitrary step of running explicit and announce-triggered syncs, with yield points between the six steps of the shutdown sequence; afterwards a battery of calls (SyncAdChain, SyncEntries/SyncOneEntry, Announce, GetLatestSync, SetLatestSync, RemoveHandler, Close, OnSyncFinished+cancel) each of which must return in the step it is made in. Oracles: every Close returns; no hook call, store write or notification after the first Close returned; all listener channels closed once drained; no goroutine started by the subscriber left (goroutine dump); no panic. Non-trivial when two actions were simultaneously enabled; distinct = distinct (schedule hash, canonical log hash)",
+		Real:   []string{"dagsync.Subscriber (watch loop, per-publisher handlers, event distributor, idle-handler cleaner, Close)", "announce.Receiver (direct announcements)", "ipnisync.Sync/Syncer", "ipnisync.Publisher", "chanqueue", "go-ipld-prime traversal", "net/http client transport", "libp2p-HTTP discovery client"},
+		Stubs:  []string{"TCP/TLS (net.Pipe)", "HTTP server loop", "block stores (in-memory)", "wall clock (testing/synctest)", "gossip pubsub (absent: announcements are direct)", "libp2p stream transport (absent)"},
+		Assume: append([]string{"three shutdown races that the library resolves with a select over two ready channels (buffered announcement vs. closed receiver; listener registration/cancellation vs. closing signal) are kept out of the schedule space: which branch the Go runtime takes would not replay. Both outcomes are legal."}, commonAssume...),
+	},
 	"C16": {
 		Property: "C16", Level: "exploration",
 		Quick:    []phase{{Scen: "C16", Enum: true, Seeds: 20000, Batch: 2000}},
